@@ -167,7 +167,7 @@ pub fn check_program(ctx: &mut Ctx, start: &Pos, moves: &[Mv], ops: &[Op]) -> Re
         if !p.legal_moves().contains(m) {
             return Ok(());
         }
-        b = b.make_move_new(bridge::mv(*m));
+        b = bridge::advance(&b, bridge::mv(*m), fp(&p) >> 11, &b);
         p = p.apply(*m);
     }
     let legal: BTreeSet<Mv> = p.legal_moves().into_iter().collect();
